@@ -102,7 +102,8 @@ def run_rule(job, ri, lis, listing_paths, tmp):
     rule_path = os.path.join(tmp, f"r{os.getpid()}.yaml")
     with open(rule_path, "w", encoding="utf-8") as f:
         f.write(rule["yaml"])
-    macro_paths = []
+    macro_paths = list(rule.get("macro_paths") or [])
+    own = len(macro_paths)
     for n, text in enumerate(rule.get("macros") or []):
         mp = os.path.join(tmp, f"r{os.getpid()}.m{n}.yaml")
         with open(mp, "w", encoding="utf-8") as f:
@@ -115,7 +116,7 @@ def run_rule(job, ri, lis, listing_paths, tmp):
                      job.get("want_regex", False))
         o["r"], o["l"] = ri, li
         out.append(o)
-    for p in [rule_path] + macro_paths:
+    for p in [rule_path] + macro_paths[own:]:
         os.unlink(p)
     return out
 
